@@ -36,8 +36,11 @@ RULE = ("tables for the file-based `table` check: quick = EVERY valid segmentati
         "EVERY one of length <=6 plus every chromosome of length 7 (8) alone and paired in both orders with every partner of length "
         "<=5 (<=3); `extent_unit` covers EVERY segmentation of <=2 chromosomes of length <=6 (quick) / <=8 (thorough); plus the "
         "D1-regression corpus, uniform two-chromosome tables of lengths 7..10 x widths 2..5, seeded random 3-4 chromosome tables "
-        "(uniform, variable, longer last bin, one-bin chromosomes) and large-coordinate uniform tables (bin size up to 2^20, file "
-        "coordinates < 2^31; unit level up to 2^40). Inside a table EVERY in-bounds (chrom,s,e) goes through Cooler.extent (tuple, "
+        "(uniform, variable, longer last bin, one-bin chromosomes) large-coordinate uniform tables (bin size up to 2^20, file "
+        "coordinates < 2^31; unit level up to 2^40) and fixed-width tables with few but huge bins (bin size 10^7..10^9, chromosome "
+        "length within one bin of 2^31 - 1). Every table is stored in one of three file layouts (alone at the root; in a nested "
+        "group of a file without a root collection; in a group of a file that also holds a DIFFERENT collection at the root) and "
+        "read both from an h5py handle and by URI. Inside a table EVERY in-bounds (chrom,s,e) goes through Cooler.extent (tuple, "
         "and open-ended tuple when e = L) and GenomeSegmentation.fetch / bedslice (large tables: bin edges +-1 and a seeded sample "
         "instead of every region); the string forms, Cooler.offset and the DataFrame-returning fetches run on every region of `full` "
         "tables (one chromosome, or both lengths <=3) and on every `stride`-th region (2 for lengths <=4, 12 for 5, else 24; the "
@@ -139,6 +142,30 @@ def _forms(name, s, e, L):
 # top: one table, every region, every access path
 # ---------------------------------------------------------------------------------------------
 
+LAYOUTS = ("root", "sub", "sub+root")
+
+
+def _write_layout(path, bins, pixels, layout):
+    """store the collection under test and return its group path.
+    root: alone at `/`;  sub: in the nested group `/a/res` of a file with no collection at the root;
+    sub+root: in the group `/coarse` of a file that ALSO holds a different collection (other bin table, other pixel
+    index) at the root — the multi-collection layouts of .mcool / .scool files"""
+    if layout == "root":
+        gen.write_cooler(path, bins, pixels, symm=True)
+        return "/"
+    if layout == "sub":
+        with h5py.File(path, "w") as f:
+            f.create_group("other")
+        gen.write_cooler(path + "::/a/res", bins, pixels, symm=True, mode="a")
+        return "/a/res"
+    assert layout == "sub+root", layout
+    n = len(bins) + 3
+    other = [[i, j, 2 + i + j] for i in range(n) for j in (i, i + 1) if j < n]  # row offsets 0,2,4,… : unlike ours
+    gen.write_cooler(path, gen.layout_bins([n], width=7), other, symm=True)
+    gen.write_cooler(path + "::/coarse", bins, pixels, symm=True, mode="a")
+    return "/coarse"
+
+
 def _table(case):
     bins, pixels = case["bins"], case["pixels"]
     stride, salt = case.get("stride", 1), case.get("salt", 0)
@@ -151,18 +178,19 @@ def _table(case):
     for r, a in zip(regions, T["regions"]):
         assert a["ok"], f"L1 != L0 at {r}: theorems regionToExtent_ok / gsFetchAbs_ok / offset_ok / regionToExtentIdx_eq contradicted"
     path = os.path.join(gen.tmpdir(), f"c04-{os.getpid()}.cool")
-    gen.write_cooler(path, bins, pixels, symm=True)
+    group = _write_layout(path, bins, pixels, case.get("layout", "root"))
     h5 = None
     cur = None
     try:
         h5 = h5py.File(path, "r")
-        clr = cooler.Cooler(h5["/"])
-        clr_uri = cooler.Cooler(path)
+        clr = cooler.Cooler(h5[group])                                    # opened from an h5py handle
+        clr_uri = cooler.Cooler(path if group == "/" else f"{path}::{group}")  # opened by path / URI
         df = gen.bins_df(bins)
         cs = clr.chromsizes
         gseg = util.GenomeSegmentation(cs, df)
         grouped = df.groupby("chrom", observed=True)
         sel_bins, sel_px = clr.bins(), clr.pixels()
+        uri_bins, uri_px = clr_uri.bins(), clr_uri.pixels()
         obs, meta = [], []
         extents = {}
         nq = 0
@@ -216,16 +244,17 @@ def _table(case):
                         lo2, hi2 = impl(clr_uri.extent, reg)
                         nq += 1
                         rec("ext", c, s, e, form, "Cooler(path).extent", [int(lo2), int(hi2)], lo=int(lo2), hi=int(hi2))
-                    fb = impl(sel_bins.fetch, reg)
+                    by_uri = form in ("ucsc", "ucsc-open")
+                    fb = impl((uri_bins if by_uri else sel_bins).fetch, reg)
                     nq += 1
-                    rec("ids", c, s, e, form, "bins().fetch", _ids(fb), ids=_ids(fb))
+                    rec("ids", c, s, e, form, "Cooler(uri).bins().fetch" if by_uri else "bins().fetch", _ids(fb), ids=_ids(fb))
                     if _rows(fb, names) != [bins[k] for k in _ids(fb) if 0 <= k < len(bins)]:
                         problems.append({"mismatch": True, **cur, "api": "bins().fetch", "impl_rows": _rows(fb, names), "labels": _ids(fb),
                                 "extent": [lo, hi], "note": "returned rows are not the bin-table rows their labels name"})
-                    fp = impl(sel_px.fetch, reg)
+                    fp = impl((uri_px if by_uri else sel_px).fetch, reg)
                     nq += 1
                     rows = [[int(a), int(b), int(v)] for a, b, v in zip(fp["bin1_id"], fp["bin2_id"], fp["count"])]
-                    rec("px", c, s, e, form, "pixels().fetch", rows, rows=rows)
+                    rec("px", c, s, e, form, "Cooler(uri).pixels().fetch" if by_uri else "pixels().fetch", rows, rows=rows)
                     lab = _ids(fp)
                     if len(lab) != len(rows) or any(not (0 <= k < len(pixels)) or pixels[k] != r for k, r in zip(lab, rows)):
                         problems.append({"mismatch": True, **cur, "api": "pixels().fetch", "impl_rows": rows, "labels": lab,
@@ -238,6 +267,9 @@ def _table(case):
                 (c1, s1, e1), (c2, s2, e2) = regions[i1], regions[i2]
                 cur = {"region": regions[i1], "region2": regions[i2], "form": "tuple", "api": "matrix().fetch"}
                 r1, r2 = (names[c1], s1, e1), (names[c2], s2, e2)
+                if e2 == lens[c2]:  # an end at the chromosome end is also given open-ended / as the bare name
+                    r2 = names[c2] if s2 == 0 else (names[c2], s2, None)
+                    cur["given_as"] = repr((r1, r2))
                 (a0, a1), (b0, b1) = extents[i1], extents[i2]
                 if (a1 - a0) * (b1 - b0) > 400:
                     continue  # keep the dense oracle small on large tables
@@ -260,7 +292,7 @@ def _table(case):
         for ok, m in zip(verdicts, meta):
             if not ok:
                 ex = drv().ask("C04.explain", bins=bins, pixels=pixels, region=m["region"])
-                note = ("rows are not exactly the stored pixels whose first bin overlaps the range" if m["api"] == "pixels().fetch" else
+                note = ("rows are not exactly the stored pixels whose first bin overlaps the range" if m["api"].endswith("pixels().fetch") else
                         "offset is not the first bin overlapping the range" if m["api"] == "Cooler.offset" else
                         "selection is not exactly the bins of that chromosome overlapping the range")
                 return {"mismatch": True, **m, "spec": ex,
@@ -328,6 +360,7 @@ def _extent_unit(case):
     big = max(b[2] for b in bins) >= 2 ** 31
     d, offs = _stored_columns(bins, np.int64 if big else np.int32)
     regions = case.get("regions") or all_regions(bins)
+    lens = chrom_lens(bins)
     bs = impl(util.get_binsize, gen.bins_df(bins))
     bs = None if bs is None else int(bs)
     nq = 0
@@ -342,6 +375,13 @@ def _extent_unit(case):
                 if [int(lo), int(hi)] != m or int(o) != m[0]:
                     return {"mismatch": True, "region": [c, s, e], "binsize": b, "impl_extent": [int(lo), int(hi)],
                             "impl_offset": int(o), "model": m}
+                if e == lens[c] and e < 2 ** 31:
+                    # an omitted end reaches the unit as the int32 scalar read from chroms/length
+                    lo, hi = impl(region_to_extent, d, ids, (names[c], s, np.int32(e)), b)
+                    nq += 1
+                    if [int(lo), int(hi)] != m:
+                        return {"mismatch": True, "region": [c, s, e], "end_given_as": "numpy.int32 (chromosome length)",
+                                "binsize": b, "impl_extent": [int(lo), int(hi)], "model": m}
     except ImplRaised as ex:
         return _skip_if_standin(ex)
     return {"stats": {"queries": nq}}
@@ -415,14 +455,17 @@ def distribution(name, case):
         yield f"tables.nchroms={nchroms(case['bins'])}"
         yield f"tables.{'full' if case.get('stride', 1) == 1 and not case.get('regions') else 'strided-or-sampled'}"
         yield f"tables.kind={case.get('kind', 'exhaustive')}"
+        yield f"tables.layout={case.get('layout', 'root')}"
 
 
 # ---------------------------------------------------------------------------------------------
 # cases
 # ---------------------------------------------------------------------------------------------
 
-def table_case(bins, stride=1, salt=0, kind="exhaustive", regions=None, npairs=8):
-    c = {"bins": bins, "pixels": default_pixels(bins), "stride": stride, "salt": salt, "kind": kind}
+def table_case(bins, stride=1, salt=0, kind="exhaustive", regions=None, npairs=8, layout=None):
+    if layout is None:  # half of the tables at the root, a quarter each in the two multi-collection layouts
+        layout = ("root", "sub+root", "root", "sub")[(salt + salt // 4) % 4]
+    c = {"bins": bins, "pixels": default_pixels(bins), "stride": stride, "salt": salt, "kind": kind, "layout": layout}
     if regions is not None:
         c["regions"] = regions
     nreg = len(regions) if regions is not None else sum((L + 1) * (L + 2) // 2 for L in chrom_lens(bins))
@@ -482,7 +525,9 @@ CORPUS = [
 def cases(tier, rng):
     thorough = tier == "thorough"
     for bins in CORPUS:
-        yield "table", table_case(bins, stride=1 if max(chrom_lens(bins)) <= 8 else 8, kind="corpus", npairs=12)
+        small = max(chrom_lens(bins)) <= 8
+        for layout in (LAYOUTS if small else ("root",)):
+            yield "table", table_case(bins, stride=1 if small else 8, kind="corpus", npairs=12, layout=layout)
         yield "extent_unit", {"bins": bins}
         yield "bounds", {"bins": bins, "pixels": default_pixels(bins), "queries": bounds_queries(bins)}
     # expensive seeded cases first (pool load balance)
@@ -497,6 +542,21 @@ def cases(tier, rng):
         bins = gen.uniform_bins(sizes, b)
         regs = sampled_regions(rng, bins, 30)
         yield "table", table_case(bins, stride=4, salt=k, kind="large-uniform", regions=regs, npairs=4)
+    # few but huge bins: fixed-width tables whose chromosome length is within one bin width of 2^31 - 1 (the int32 limit of
+    # the stored coordinate and length columns), so that `length + binsize` no longer fits the stored dtype
+    widths = [10 ** 9, 2 ** 30, 10 ** 8, 3 * 10 ** 8 + 7, 10 ** 7, 123456789] + ([4 * 10 ** 6, 10 ** 6, 2 ** 28, 5 * 10 ** 8] if thorough else [])
+    for k in range(2 * len(widths) if thorough else len(widths)):
+        b = widths[k % len(widths)]
+        L0 = rng.choice([2 ** 31 - 1, 2 ** 31 - 1000, 2147483000, 2 ** 31 - rng.randint(1, b - 1)])
+        m = min(3, (2 ** 31 - 1) // b)  # every length stays a legal int32 chromosome length
+        L1 = rng.choice([b * rng.randint(1, m), b * rng.randint(1, m) - rng.randint(1, b - 1), 2 ** 31 - rng.randint(1, b - 1), 1])
+        sizes = [[L0], [L0, L1], [L1, L0]][k % 3]
+        assert all(1 <= L <= 2 ** 31 - 1 for L in sizes)
+        bins = gen.uniform_bins(sizes, b)
+        regs = sampled_regions(rng, bins, 24 if len(bins) <= 600 else 8)
+        yield "table", table_case(bins, stride=2 if len(bins) <= 600 else 4, salt=k, kind="huge-bins", regions=regs, npairs=6,
+                                  layout=LAYOUTS[k % 3])
+        yield "extent_unit", {"bins": bins, "regions": regs}
     for k in range(200 if thorough else 36):
         bins = gen.random_segmentation(rng, rng.randint(3, 4), 12 if k % 3 else 16)
         yield "table", table_case(bins, stride=8, salt=k, kind="random-3-4-chroms", npairs=8)
@@ -590,7 +650,8 @@ def shrink(name, case):
             if len(chroms) > 1 and ch not in keep and case.get("regions"):
                 nb, remap = _drop_chrom(bins, ch)
                 c = table_case(nb, stride=1, kind=case.get("kind", "shrunk"),
-                               regions=[[remap[x[0]], x[1], x[2]] for x in case["regions"]], npairs=1)
+                               regions=[[remap[x[0]], x[1], x[2]] for x in case["regions"]], npairs=1,
+                               layout=case.get("layout", "root"))
                 c["pairs"] = []
                 yield c
         if case["pixels"]:
